@@ -651,6 +651,7 @@ class CommitCsvExporter:
             mode = "w"
             commit_name = commit.name.replace(" ", "_")
             commit_name = commit_name.replace('"', "_")
+            commit_name = commit_name.replace(os.sep, "_")
             csv_file_name = os.path.join(
                 self._export_directory,
                 (self._file_name_prefix + "-" + commit_name + ".csv"),
